@@ -75,6 +75,50 @@ theorem C20_initial_flush {cap : Int} {acts : List Act} {s : St} (h : run (init 
   | false => exact inv.ctl.late he
   | true => have := (inv.ctl.early he).1; omega
 
+/-- **C20_startup_data.**  "An initial flush precedes the first request", with the data it is there for: a
+datapoint accepted during start-up — before the heartbeat's initial flush, at any point of any schedule
+`pre` — is, as soon as one `/next` request exists, in the body of flush 0, which was started by the heartbeat
+and whose delivery attempt is over.  (Replacing the initial `Flush()` by a bare notification keeps every count
+of `C20_next_after_flush` intact and breaks exactly this.) -/
+theorem C20_startup_data {cap : Int} {pre post : List Act} {s0 s1 s : St} (dp : Nat)
+    (h0 : run (init cap) pre = some s0) (hearly : s0.initFlushed = false)
+    (hacc : step s0 (.accept dp) = some s1) (h1 : run s1 post = some s) (hn : 1 ≤ s.nextReq) :
+    ∃ f, s.flushes[0]? = some f ∧ f.origin = none ∧ f.st.over = true ∧ dp ∈ f.body := by
+  have inv0 := inv_run (inv_init cap) h0
+  -- `accept` leaves the environment hypothesis alone
+  have henv1 : envOK s1 = true := by
+    have he := inv0.ctl.env
+    simp only [step] at hacc
+    split at hacc
+    · cases hacc
+    · simp only [Option.some.injEq] at hacc; subst hacc
+      simpa [envOK] using he
+  have inv1 := inv_step inv0 hacc henv1
+  have hE1 : EarlyIn s1 dp := by
+    simp only [step] at hacc
+    split at hacc
+    · cases hacc
+    · simp only [Option.some.injEq] at hacc; subst hacc
+      exact Or.inl ⟨hearly, by simp⟩
+  have hE := earlyIn_run dp inv1 h1 hE1
+  -- the whole history is a run from the initial state
+  have hrun : run (init cap) (pre ++ Act.accept dp :: post) = some s := by
+    rw [run_append, h0]
+    simp only [Option.bind_some, run, hacc, henv1, if_true]
+    exact h1
+  obtain ⟨hflushed, f, hf, horig, hover⟩ := C20_initial_flush hrun hn
+  rcases hE with ⟨hnot, _⟩ | ⟨f', hf', hb⟩
+  · rw [hflushed] at hnot; cases hnot
+  · rw [hf] at hf'; cases hf'
+    exact ⟨f, hf, horig, hover, hb⟩
+
+/-- non-vacuity: a datapoint accepted inside the start-up window is posted by the initial flush before the
+first `/next` -/
+example :
+    (run (init codeCap) [.register, .subscribe, .accept 5, .windowElapsed, .hbInitFlush, .postBegin 0, .postEnd 0,
+        .notify 0, .hbWait, .hbNext]).map (fun s => (s.nextReq, s.flushes.map (fun f => (f.origin, f.body, f.st.over))))
+      = some (1, [(none, [5], true)]) := by decide
+
 /-- **C20_data_before_freeze.**  Every datapoint accepted before invocation `k`'s runtimeDone record was
 emitted (`e < k`) is, by the time the `(k+1)`-th `/next` has been requested, in the body of a flush whose
 delivery attempt is over. -/
